@@ -343,7 +343,7 @@ func TestVerifC16(t *testing.T) {
 		// thorough tier: one process per shard of the root execution's alternatives
 		exit, evs := ev.RunShards(14, "TestVerifC16")
 		os.Setenv("VERIF_MERGE_EVIDENCE", strings.Join(evs, ","))
-		c16Describe(r, 2, 3)
+		c16Describe(r, ev.MinStageInt(evs, "completed_preemption_bound"), 3)
 		if code := r.Finish(); code > exit {
 			exit = code
 		}
